@@ -1,7 +1,9 @@
 (* C05 -- merge obeys identity, one-sided adoption, agreement (and side symmetry).
-   Statements only; proofs live in Merge/MergeProofs.v.  The model is instantiated with the source
-   facts generated from /repo (Gen/MergeFacts.v): chunks_guard, entry_eq_strict. *)
-From Coq Require Import List.
+   Statements only; proofs live in Merge/MergeProofs.v.  The model (Merge/MergeGeneric.v) is instantiated
+   with the source facts generated from /repo (Gen/MergeFacts.v): chunks_guard, entry_eq_strict,
+   conflict_assert_strict.  O, cfg (heuristic oracles, differ tables), St (strategy table) and H (hooks of the
+   notebook-specific strategy layer) are universally quantified: the laws hold under every strategy. *)
+From Coq Require Import List ZArith.
 From NB Require Import Base.Res.
 From NB Require Import Base.Json.
 From NB Require Import Diff.DiffFormat.
@@ -14,21 +16,69 @@ From NB Require Import Merge.MergeProofs.
 From NB Require Import Gen.MergeFacts.
 Import ListNotations.
 
+Notation decide O cfg St H :=
+  (decide_merge_with_diff O cfg St H chunks_guard entry_eq_strict conflict_assert_strict).
+
 (* identity: nothing changed => no decision at all, and applying no decision gives base back *)
 Theorem merge_id : forall O cfg St H base,
   is_container base = true -> plain_string_root St base -> base <> JArr [] -> base <> JStr [] ->
-  decide_merge_with_diff O cfg St H chunks_guard entry_eq_strict base [] [] = Ok []
-  /\ apply_decisions base [] = Ok base.
+  decide O cfg St H base [] [] = Ok [] /\ apply_decisions base [] = Ok base.
 Proof. exact merge_id_thm. Qed.
 Print Assumptions merge_id.
 
-(* ==== BEGIN block tied to the source fact chunks_guard (finding C05 empty-sequence-root) ====
+(* one-sided change, local role: whatever the diff, no decision is conflicted *)
+Theorem merge_onesided_l_partial : forall O cfg St H base d decs,
+  plain_string_root St base -> decide O cfg St H base d [] = Ok decs -> no_conf decs.
+Proof. exact (fun O cfg St H => decide_onesided_local O cfg St H chunks_guard entry_eq_strict conflict_assert_strict). Qed.
+Print Assumptions merge_onesided_l_partial.
+
+(* one-sided change, remote role *)
+Theorem merge_onesided_r_partial : forall O cfg St H base d decs,
+  plain_string_root St base -> decide O cfg St H base [] d = Ok decs -> no_conf decs.
+Proof. exact (fun O cfg St H => decide_onesided_remote O cfg St H chunks_guard entry_eq_strict conflict_assert_strict). Qed.
+Print Assumptions merge_onesided_r_partial.
+
+(* the same change on both sides *)
+Theorem merge_agree_partial : forall O cfg St H base d decs,
+  plain_string_root St base -> decide O cfg St H base d d = Ok decs -> no_conf decs.
+Proof. exact (fun O cfg St H => decide_agree O cfg St H chunks_guard entry_eq_strict conflict_assert_strict). Qed.
+Print Assumptions merge_agree_partial.
+
+(* the hypotheses above are satisfiable with non-empty diffs, and the merged documents are the expected ones *)
+Theorem merge_onesided_example :
+  exists decs, decide_merge_with_diff O0 cfg0 no_strategies no_hooks GuardListTruthy false false
+                 (JArr [JInt 1; JInt 2]) [DRemoveRange (KI 0) 1] [] = Ok decs
+               /\ decs <> [] /\ apply_decisions (JArr [JInt 1; JInt 2]) decs = Ok (JArr [JInt 2]).
+Proof. exact onesided_nonvacuous. Qed.
+Print Assumptions merge_onesided_example.
+
+(* ==== BEGIN block tied to the source fact chunks_guard (finding: empty-sequence-root-unchanged-asserts-no-merge-chunks) ====
    On the current source the identity law FAILS for an empty list / empty string at the root.
-   After the fix (guard `base or any(split_diffs)`) replace this theorem by:
-     merge_id_empty_seq : forall O cfg St H, decide_merge_with_diff O cfg St H chunks_guard entry_eq_strict (JArr []) [] [] = Ok []
-     proved by  exact (fun O cfg St H => decide_id_empty_fixed O cfg St H entry_eq_strict). *)
+   After the fix (guard `base or any(split_diffs)`) replace the statement and proof below by:
+     merge_id_empty_seq : forall O cfg St H, decide O cfg St H (JArr []) [] [] = Ok []
+     exact (fun O cfg St H => decide_id_empty_fixed O cfg St H entry_eq_strict conflict_assert_strict). *)
 Theorem merge_id_empty_seq_refuted : forall O cfg St H,
-  decide_merge_with_diff O cfg St H chunks_guard entry_eq_strict (JArr []) [] [] = Err AssertionError.
-Proof. exact (fun O cfg St H => decide_id_refuted O cfg St H entry_eq_strict). Qed.
+  decide O cfg St H (JArr []) [] [] = Err AssertionError.
+Proof. exact (fun O cfg St H => decide_id_refuted O cfg St H entry_eq_strict conflict_assert_strict). Qed.
 Print Assumptions merge_id_empty_seq_refuted.
+(* ==== END block ==== *)
+
+(* ==== BEGIN block tied to the source facts entry_eq_strict / conflict_assert_strict
+        (finding: symmetry-merged-differs-by-json-type-only) ====
+   On the current source the symmetry clause FAILS: {a:0} with a:=1 on one side and a:=true on the other merges
+   without conflict to {a:1} or {a:true} depending on which side is called local.
+   After the fix (strict_equals in generic.py AND in the asserts of decisions.py) replace the statement and proof by:
+     merge_symmetric_example : forall O cfg, (statement of symmetry_example_strict with the two `true` written as
+                                              entry_eq_strict conflict_assert_strict)
+     exact symmetry_example_strict. *)
+Theorem merge_symmetric_refuted : forall O cfg,
+  let base := JObj [(ka, JInt 0)] in
+  let dl := [DReplace (KS ka) (JInt 1)] in
+  let dr := [DReplace (KS ka) (JBool true)] in
+  exists d1 d2 m1 m2,
+    decide_merge_with_diff O cfg no_strategies no_hooks GuardListTruthy entry_eq_strict conflict_assert_strict base dl dr = Ok d1 /\ no_conf d1 /\
+    decide_merge_with_diff O cfg no_strategies no_hooks GuardListTruthy entry_eq_strict conflict_assert_strict base dr dl = Ok d2 /\ no_conf d2 /\
+    apply_decisions base d1 = Ok m1 /\ apply_decisions base d2 = Ok m2 /\ m1 <> m2.
+Proof. exact symmetry_refuted_pyeq. Qed.
+Print Assumptions merge_symmetric_refuted.
 (* ==== END block ==== *)
